@@ -58,13 +58,16 @@ impl ClockHandle {
 	pub fn stop(&mut self) {
 		self.command_writers.set_ticking.write(false);
 		self.command_writers.reset.write(());
+		verif_hook!("clock.stop.cmds", 0, 0);
 		// store 0 as the current time so any reads that happen
 		// immediately after a stop don't errantly get the previous
 		// clock time
 		self.shared.ticks.store(0, Ordering::SeqCst);
+		verif_hook!("clock.stop.mid", 0, 0);
 		self.shared
 			.fractional_position
 			.store(0.0f64.to_bits(), Ordering::SeqCst);
+		verif_hook!("clock.stop.post", 0, 0);
 	}
 }
 
